@@ -346,7 +346,22 @@ func (m *Model) Prepare(op Op, now time.Time) (Call, bool) {
 		return c, m.liveSub(op.Sub) != nil
 	case "seekS":
 		return c, m.liveSub(op.Sub) != nil && m.Snaps[op.Name] != nil
-	case "createTopic", "deleteTopic", "createSub", "deleteSub", "job",
+	case "job":
+		if op.Job == "delete-expired-subscriptions" {
+			// not while the clock is inside a subscription's TTL window: the sweep's
+			// verdict there is neither "must stay" nor "must go" (harness rule ttl-unclean)
+			for _, s := range m.Subs {
+				if !s.Live {
+					continue
+				}
+				w := s.Activity.Add(s.Cfg.TTLOrDefault())
+				if !now.Before(w.Lo.Add(-cleanMargin)) && !now.After(w.Hi.Add(cleanMargin)) {
+					return c, false
+				}
+			}
+		}
+		return c, true
+	case "createTopic", "deleteTopic", "createSub", "deleteSub",
 		"getTopic", "getSub", "getSnap", "delSnap", "listTopics", "listSubs", "listSnaps", "listTopicSubs":
 		return c, true
 	case "tick":
